@@ -15,7 +15,8 @@
 (***************************************************************************)
 EXTENDS Naturals, Sequences, FiniteSets, TLC, Json
 
-CONSTANTS Mode, MaxLen, MaxEdits, Shard, NShards, EmitVectors
+CONSTANTS Mode, MaxLen, MaxEdits, Shard, NShards, EmitVectors,
+          Stride, Phase       \* edits explored: those with (position * 41 + pool index) % Stride = Phase (Stride 1: all)
 VARIABLES seed, toks, nedits
 vars == <<seed, toks, nedits>>
 
@@ -52,14 +53,17 @@ Append1 == /\ Mode = "strings" /\ Len(toks) < MaxLen
 
 RemoveAt(s, i) == SubSeq(s, 1, i - 1) \o SubSeq(s, i + 1, Len(s))
 InsertAt(s, i, x) == SubSeq(s, 1, i - 1) \o <<x>> \o SubSeq(s, i, Len(s))
+\* with Stride > 1 only a slice of the edits is explored at every step (a different slice for every Phase): this keeps
+\* two- and three-edit mutants enumerable; Stride = 1 is the full set
+Sel(i, c) == (i * 41 + c) % Stride = Phase % Stride
 Edit == /\ Mode = "edits" /\ nedits < MaxEdits
         /\ \E i \in {j \in DOMAIN toks : j % NShards = Shard \/ nedits > 0} :
-             \/ toks' = RemoveAt(toks, i)
-             \/ toks' = InsertAt(toks, i, toks[i])
-             \/ (i < Len(toks) /\ toks' = [toks EXCEPT ![i] = toks[i + 1], ![i + 1] = toks[i]])
-             \/ \E c \in DOMAIN Pool : toks' = [toks EXCEPT ![i] = Pool[c]]
-             \/ \E c \in DOMAIN Pool : toks' = InsertAt(toks, i, Pool[c])
-             \/ toks' = SubSeq(toks, 1, i)
+             \/ (Sel(i, 0) /\ toks' = RemoveAt(toks, i))
+             \/ (Sel(i, 1) /\ toks' = InsertAt(toks, i, toks[i]))
+             \/ (Sel(i, 2) /\ i < Len(toks) /\ toks' = [toks EXCEPT ![i] = toks[i + 1], ![i + 1] = toks[i]])
+             \/ \E c \in DOMAIN Pool : Sel(i, c + 3) /\ toks' = [toks EXCEPT ![i] = Pool[c]]
+             \/ \E c \in DOMAIN Pool : Sel(i, c + 20) /\ toks' = InsertAt(toks, i, Pool[c])
+             \/ (Sel(i, 3) /\ toks' = SubSeq(toks, 1, i))
         /\ nedits' = nedits + 1
         /\ UNCHANGED seed
 
